@@ -2,12 +2,15 @@ import sys, time, json
 sys.path.insert(0, '/verif')
 from pyvc.driver import run_functions
 keys=[k for k in sys.argv[1:] if not k.startswith('-')]
+sc=None
+for a in sys.argv:
+    if a.startswith('--sidecars='): sc=a.split('=',1)[1].split(',')
 t=time.time()
-for r in run_functions(keys, log=print, do_refute='--norefute' not in sys.argv):
+for r in run_functions(keys, sidecars=sc, log=print, do_refute='--norefute' not in sys.argv, jobs=int(__import__('os').environ.get('JOBS','16'))):
     key=r['function']
     if r['error'] or r['unsupported']: print(key, 'ERROR', r['error'], r['unsupported']); continue
     obs = r['obligations']
-    print(key, len(obs), 'obligations', r['stats'], 'wall', r['wall_s'], 'VACUOUS' if r.get('vacuous') else 'nonvacuous', r.get('must_fail_checked'))
+    print(key, len(obs), 'obligations', r['stats'], 'VACUOUS' if r.get('vacuous') else 'nonvacuous', r.get('must_fail_checked'))
     seen=set()
     for o in obs:
         if o['status'] not in ('discharged','skipped') and o['name'] not in seen:
